@@ -4,6 +4,7 @@
 mod audit;
 mod batch;
 mod boundary;
+mod boundary_large;
 mod comps;
 mod engine;
 mod exec;
